@@ -270,7 +270,8 @@ func (p *PacketOut) UnmarshalBinary(data []byte) error {
 
 	n += 6 // for pad
 
-	for n < (n + p.ActionsLen) {
+	end := n + p.ActionsLen
+	for n < end {
 		a, err := DecodeAction(data[n:])
 		if err != nil {
 			return err
@@ -279,6 +280,7 @@ func (p *PacketOut) UnmarshalBinary(data []byte) error {
 		n += a.Len()
 	}
 
+	p.Data = util.NewBuffer(make([]byte, 0))
 	err = p.Data.UnmarshalBinary(data[n:])
 	return err
 }
